@@ -24,14 +24,27 @@
 //!   and session parameters, candidate extension pairs, unknown attributes, ice-options, whole media
 //!   sections, one candidate in two sections) a second time, adjacent or not, verbatim or as a near
 //!   duplicate (a candidate differing in exactly one field; elements sharing only their key) — the
-//!   lists are `Vec`s, n elements printed must come back as the same n elements in the same order.
+//!   lists are `Vec`s, n elements printed must come back as the same n elements in the same order;
+//!   (5) a WELL-KNOWN NAME IN THE OTHER FORM, held in the catch-all: an unknown attribute named like
+//!   a flag the crate knows but carrying a value (`a=sendonly:x`, `a=end-of-candidates:1`, empty value
+//!   too) or named like a valued attribute but without a value (`a=rtpmap`, `a=crypto`), at session and
+//!   media level; an `Ext` session parameter that is a keyed well-known name with a value outside that
+//!   parameter's grammar — `KDR=` / `WSH=` + a numeric look-alike that is not `1*DIGIT` within u32
+//!   (signed, junk around digits, above u32::MAX), `FEC_ORDER=` + not exactly one of the two orders,
+//!   `FEC_KEY=` + no inline key list — a keyed name without `=`, a flag with `=value`. The line / token
+//!   dispatch has to look at the form, not only at the name, and a value parser has to reject what its
+//!   grammar does not cover, for these to come back as the same unknown attribute / `Ext`.
 //!   Oracle: equality with the generated value, nothing else. Not asserted: what a token that is
-//!   spelled exactly like a well-known one but held in the catch-all variant parses to; whether
+//!   spelled exactly like a well-known one IN THE FORM THE CRATE INTERPRETS but held in the catch-all
+//!   variant parses to (value-less `sendonly`, valued `rtpmap`, `ice-lite` in either form — the crate
+//!   reads `a=ice-lite:x` as the flag —, `Ext("KDR=5")`, `Ext("KDR=007")`, candidate keys `raddr` / `rport`); whether
 //!   case-variants of media types (no catch-all variant exists) are accepted; control characters
 //!   inside tokens (outside RFC 8866 `non-ws-string`).
 //! * `whole_token` — metamorphic: a token character appended to the media-type / protocol /
 //!   crypto-suite token of a valid description yields an error or the `Other`/`Ext` variant with
-//!   the whole token, never the well-known variant.
+//!   the whole token, never the well-known variant; the other fields of that line must then be the
+//!   generated ones, or at least read exactly as they do when the line carries the well-known token
+//!   (a field that does not survive print -> parse with either token is `roundtrip`'s finding).
 
 use crate::engine::*;
 use crate::gen::sdp::*;
@@ -518,7 +531,23 @@ fn cmp_crypto(d: &mut Diff, at: &str, w: &CryptoC, g: &CryptoC) {
                     );
                 }
             }
-            (ParamC::Ext(_), _) => d.eq("crypto.param.ext", &at, wp, gp),
+            // an Ext carrying a well-known name in another form gets its own locus (a dispatch on
+            // the name / a lenient value parser is a different root cause than prefix matching)
+            (ParamC::Ext(s), _) => d.eq(
+                match param_ext_form(s) {
+                    Some("keyed-name+signed-number") => "crypto.param.ext:keyed-name+signed-number",
+                    Some("keyed-name+number-above-u32") => "crypto.param.ext:keyed-name+number-above-u32",
+                    Some("keyed-name+non-number") => "crypto.param.ext:keyed-name+non-number",
+                    Some("FEC_ORDER+other-value") => "crypto.param.ext:FEC_ORDER+other-value",
+                    Some("FEC_KEY+non-key-params") => "crypto.param.ext:FEC_KEY+non-key-params",
+                    Some("keyed-name-without-=") => "crypto.param.ext:keyed-name-without-=",
+                    Some("flag-name+=value") => "crypto.param.ext:flag-name+=value",
+                    _ => "crypto.param.ext",
+                },
+                &at,
+                wp,
+                gp,
+            ),
             _ => d.eq("crypto.param", &at, wp, gp),
         }
     }
@@ -595,7 +624,27 @@ fn cmp_media(d: &mut Diff, at: &str, w: &MediaC, g: &MediaC) {
     for (i, (a, b)) in w.crypto.iter().zip(&g.crypto).enumerate() {
         cmp_crypto(d, &format!("{at}.crypto[{i}]"), a, b);
     }
-    d.eq("media.attributes", at, &w.attributes, &g.attributes);
+    d.eq(
+        attrs_locus(
+            ["media.attributes", "media.attributes:flag-name+value", "media.attributes:valued-name-without-value"],
+            &w.attributes,
+            &g.attributes,
+        ),
+        at,
+        &w.attributes,
+        &g.attributes,
+    );
+}
+
+/// locus of an attribute-list mismatch: named after the form of the first generated attribute that
+/// did not come back in its place (a known name in the other form is its own class of failure)
+fn attrs_locus(loci: [&'static str; 3], w: &[AttrC], g: &[AttrC]) -> &'static str {
+    let i = w.iter().zip(g).position(|(a, b)| a != b).unwrap_or(w.len().min(g.len()));
+    match w.get(i).and_then(attr_other_form) {
+        Some("flag-name+value") => loci[1],
+        Some(_) => loci[2],
+        None => loci[0],
+    }
 }
 
 fn cmp_session(w: &SdpCase, g: &SdpCase) -> Diff {
@@ -620,7 +669,16 @@ fn cmp_session(w: &SdpCase, g: &SdpCase) -> Diff {
     d.eq("session.ice-lite", at, &w.ice_lite, &g.ice_lite);
     d.eq("session.ice-ufrag", at, &w.ice_ufrag, &g.ice_ufrag);
     d.eq("session.ice-pwd", at, &w.ice_pwd, &g.ice_pwd);
-    d.eq("session.attributes", at, &w.attributes, &g.attributes);
+    d.eq(
+        attrs_locus(
+            ["session.attributes", "session.attributes:flag-name+value", "session.attributes:valued-name-without-value"],
+            &w.attributes,
+            &g.attributes,
+        ),
+        at,
+        &w.attributes,
+        &g.attributes,
+    );
     d.eq("media.count", at, &w.media.len(), &g.media.len());
     for (i, (a, b)) in w.media.iter().zip(&g.media).enumerate() {
         cmp_media(&mut d, &format!("media[{i}]"), a, b);
@@ -797,9 +855,28 @@ fn classify_value(c: &SdpCase, out: &mut CaseOut) -> bool {
     if edge_uws(&c.name) {
         out.class("text:unicode-ws-at-edge");
     }
-    let attr_classes = |a: &AttrC, out: &mut CaseOut| -> bool {
+    let attr_classes = |a: &AttrC, media_level: bool, out: &mut CaseOut| -> bool {
         if a.value.as_deref().map_or(false, edge_uws) {
             out.class("text:unicode-ws-at-edge");
+        }
+        match attr_other_form(a) {
+            Some("flag-name+value") => {
+                out.class(if media_level { "attr:flag-name+value@media" } else { "attr:flag-name+value@session" });
+                if a.name == "end-of-candidates" {
+                    out.class("attr:end-of-candidates+value");
+                } else {
+                    out.class("attr:direction-name+value");
+                }
+                if a.value.as_deref() == Some("") {
+                    out.class("attr:flag-name+empty-value");
+                }
+                return true;
+            }
+            Some(_) => {
+                out.class(if media_level { "attr:valued-name-without-value@media" } else { "attr:valued-name-without-value@session" });
+                return true;
+            }
+            None => {}
         }
         match near_miss_kind(&a.name, &KNOWN_ATTR_NAMES) {
             Some("case-variant") => {
@@ -818,7 +895,7 @@ fn classify_value(c: &SdpCase, out: &mut CaseOut) -> bool {
         }
     };
     for a in &c.attributes {
-        interesting |= attr_classes(a, out);
+        interesting |= attr_classes(a, false, out);
     }
     for b in &c.bandwidth {
         e32(b.bandwidth);
@@ -1028,6 +1105,16 @@ fn classify_value(c: &SdpCase, out: &mut CaseOut) -> bool {
                     ParamC::Ext(_) => "param:ext",
                 });
                 if let ParamC::Ext(s) = p {
+                    match param_ext_form(s) {
+                        Some("keyed-name+signed-number") => out.class("param:ext-keyed-name+signed-number"),
+                        Some("keyed-name+number-above-u32") => out.class("param:ext-keyed-name+number-above-u32"),
+                        Some("keyed-name+non-number") => out.class("param:ext-keyed-name+non-number"),
+                        Some("FEC_ORDER+other-value") => out.class("param:ext-FEC_ORDER+other-value"),
+                        Some("FEC_KEY+non-key-params") => out.class("param:ext-FEC_KEY+non-key-params"),
+                        Some("keyed-name-without-=") => out.class("param:ext-keyed-name-without-="),
+                        Some("flag-name+=value") => out.class("param:ext-flag-name+=value"),
+                        _ => {}
+                    }
                     let name_end = s.find('=').map_or(s.len(), |i| i + 1);
                     let keyed = ["KDR=", "FEC_ORDER=", "FEC_KEY=", "WSH="];
                     if near_miss_kind(s, &PARAM_FLAGS) == Some("case-variant")
@@ -1044,7 +1131,15 @@ fn classify_value(c: &SdpCase, out: &mut CaseOut) -> bool {
             out.class("media:unknown-attr");
         }
         for a in &m.attributes {
-            interesting |= attr_classes(a, out);
+            interesting |= attr_classes(a, true, out);
+            // the shapes in which a flag read from a valued line would change the section visibly
+            if attr_other_form(a) == Some("flag-name+value") {
+                if a.name == "end-of-candidates" && !m.end_of_candidates {
+                    out.class("attr:end-of-candidates+value,flag-unset");
+                } else if a.name != "end-of-candidates" && a.name != rf::dir_token(m.direction) {
+                    out.class("attr:direction-name+value,other-than-section-direction");
+                }
+            }
         }
         for f in &m.fmtps {
             if edge_uws(&f.params) {
@@ -1421,7 +1516,24 @@ fn check_whole_token(case: &TokenCase, out: &mut CaseOut) {
             gc.tag == m.crypto[ci].tag && gc.keys == m.crypto[ci].keys && gc.params == m.crypto[ci].params
         }
     };
-    if !intact {
+    // ... by the longer token: a field that reads the same way when the line carries the well-known
+    // token itself is not damaged by the token (a value that does not survive print -> parse at all
+    // is the round trip's finding, reported there under the name of the field)
+    let same_without_suffix = || {
+        let Ok(plain) = parse(&rf::ref_print(&base)) else { return false };
+        let Some(pm0) = plain.media_descriptions.get(mi) else { return false };
+        let g0 = from_media(pm0);
+        match case.site {
+            Site::MediaType | Site::Proto => g0.port == gm.port && g0.ports_num == gm.ports_num && g0.fmts == gm.fmts,
+            Site::Suite => g0.crypto.get(ci).map_or(false, |c0| {
+                let gc = &gm.crypto[ci];
+                c0.tag == gc.tag && c0.keys == gc.keys && c0.params == gc.params
+            }),
+        }
+    };
+    if !intact && same_without_suffix() {
+        out.class("result:fields-differ-independent-of-token");
+    } else if !intact {
         out.fail(
             format!("c19.whole_token/{site_name}-line-damaged"),
             format!("line {new_text:?}: token accepted whole but the remaining fields changed: {:?}", pm),
@@ -1443,7 +1555,8 @@ pub fn property() -> Property {
         id: "C19",
         rule: "roundtrip: a generated SessionDescription value is non-trivial when it has >=1 media section and at least one of: >=2 \
                different sections, a candidate / crypto line / ice-options, an Other proto / unknown attribute name that is a near miss \
-               of a well-known token (extends it, is a part of it, differs in letter case only), an origin / candidate token \
+               of a well-known token (extends it, is a part of it, differs in letter case only), an unknown attribute that is a known \
+               name in the other form (flag name + value, valued name without value), an origin / candidate token \
                holding a non-ASCII white-space code point, an IP6FQDN whose text is a dotted quad, a repeated (equal, or for \
                candidates differing in one field) element in a media-level list, two equal media sections, one candidate in two \
                sections, a numeric field at a range edge; distinct = hash of the whole value. parse_text: non-trivial when at least one `<o|s|c|t|b|m|a>=` \
@@ -1452,7 +1565,11 @@ pub fn property() -> Property {
         assumptions: vec![
             "values stay inside each field's documented grammar (see gen/sdp.rs module doc): no empty key list / FecKey([]), no fmtp \
              params with leading ASCII blank, unknown attributes / Ext params / Other tokens never spelled exactly (byte for byte) \
-             like a known one — a different letter case IS a different token —, IP4 connection `num` only with `ttl`, the host \
+             like a known one in the form the crate interprets — a different letter case IS a different token, and so is a \
+             flag name with a value (a=sendonly:x), a valued name without one (a=rtpmap), KDR= / WSH= with a text that is not \
+             1*DIGIT within u32 (KDR=+5, WSH=4294967296), FEC_ORDER= / FEC_KEY= with a text outside their grammar: those ARE \
+             generated, only the catch-all variant can hold them; never generated: ice-lite as an unknown attribute in either \
+             form (the crate reads both), KDR=/WSH= + digits within u32 incl. leading zeros —, IP4 connection `num` only with `ttl`, the host \
              text of IP4FQDN is never an IPv4 literal, of IP6FQDN never an IPv6 literal, of a candidate Fqdn never a literal of \
              either family (the API holds those as IP4 / IP6 / IpAddress); a dotted quad under the IP6 tag IS generated, it can \
              only be IP6FQDN",
@@ -1466,7 +1583,10 @@ pub fn property() -> Property {
                       public SessionDescription/MediaDescription structs (0..4 media sections, 5 when one is repeated; 0..n of each attribute \
                       incl. n equal ones and near duplicates; host names incl. look-alikes of address literals; integers over \
                       their full range with weight on 0/MAX/powers of two; tokens with non-ASCII white space / invisible code points; \
-                      catch-all tokens as case variants, prefixes, suffixes and extensions of every well-known token); texts are arbitrary UTF-8, line-shaped ASCII, \
+                      catch-all tokens as case variants, prefixes, suffixes and extensions of every well-known token, and as a \
+                      well-known name in the form the crate does not interpret: flag attribute names with a value, valued attribute \
+                      names without one, keyed SRTP session parameters with signed / overflowing / non-numeric numbers or a value \
+                      outside their grammar); texts are arbitrary UTF-8, line-shaped ASCII, \
                       grammar-derived lines with numbers up to 41 digits and 2^n with n<=99, and 1..4 char/line/number mutations of \
                       valid reference SDP.",
         subs: vec![
